@@ -75,6 +75,12 @@ func injectC12(r *rand.Rand, g *spec.Grammar) string {
 	}
 	switch kind {
 	case 0: // undefined identifier
+		if len(g.Rules)%2 == 0 {
+			// ... spelled like the character of a declared (and otherwise unused) literal token: 'q' is not q
+			g.Tokens = append(g.Tokens, spec.Token{Lit: 'q', Decl: "token"}, spec.Token{Name: "q", Decl: "undeclared"})
+			insert(anyRule(), spec.Sym{T: true, I: len(g.Tokens) - 1})
+			return "undefined identifier in a rhs"
+		}
 		g.Tokens = append(g.Tokens, spec.Token{Name: "Uq", Decl: "undeclared"})
 		insert(anyRule(), spec.Sym{T: true, I: len(g.Tokens) - 1})
 		return "undefined identifier in a rhs"
